@@ -4,8 +4,31 @@ C03 — script summary roles follow from per‑statement reads and writes.
 Theorems about `AStmt.build` = `Assemble.build` (model of `SQLLineageHolder._build_digraph` + role predicates,
 core/holders.py:297‑458) on the statement holders the public holder API builds for abstract statements.
 The model is tied to the code by the exhaustive correspondence of `harness/c03.py`.
+
+* DROP/RENAME‑free histories: `build_rw` (invariant `Inv`), `edge_iff`, `roles_iff`, `order_and_repetition_irrelevant`.
+* DROP: `drop_frame`, `drop_removes_iff_isolated`.
+* RENAME: `foldStep_total` / `rename_total` (D10 repaired), `rename_removes_old`, and "puts y exactly in x's place":
+  - `rename_in_place` — for EVERY well‑formed fold state `g` without `y`: nodes (a), edges with their type and index (b),
+    tags of all other nodes unchanged and NO tag on `y` (c), result well‑formed; `rename_in_place_nodes_cases` (the isolated
+    table vanishes), `rename_in_place_tags` (under "x carries no tag" `y` has exactly `x`'s attributes);
+  - `rename_in_place_roles_graph` — if `x` carries none of SOURCE_ONLY / TARGET_ONLY / SELFLOOP, `y` gets exactly `x`'s
+    roles, `x` has none, every other node keeps its roles (a self loop on `x` is NOT excluded: it moves to `y`);
+  - `rename_in_place_roles`, `rename_in_place_roles_tables` — (d) lifted to histories: RW‑only history in which `x` is never
+    read by a statement that writes nothing nor written by a statement that reads nothing and `y` does not occur, followed by
+    `RENAME x TO y`;
+  - `rename_in_place_any_history`, `rename_in_place_roles_any_history` — the same at ANY point of ANY history (DROP / RENAME
+    statements before it included): every fold state is well‑formed and free of SELFLOOP tags (`fold_wf`,
+    `fold_no_selfloop_tag` in `Proofs/RelabelLemmas.lean`); hypotheses on the state: `y` absent, `x` without SOURCE_ONLY /
+    TARGET_ONLY;
+  - the hypotheses are not idle: `rename_loses_tags_witness` (tags), `rename_onto_existing_witness` (`y` absent);
+    `rename_selfloop_witness`, `rename_isolated_vanishes_witness`.
+  Lemmas: `Proofs/RelabelLemmas.lean`.  Not covered by a general theorem: the hypotheses of the any‑history form are stated on
+  the fold state, not on the history, when DROP/RENAME statements precede (the invariant `Inv` speaks of RW‑only histories);
+  the role transfer of a multi‑pair RENAME; renaming onto an existing table (a merge, not "in place").
 -/
 import SqlLineage.Proofs.AStmtLemmas
+import SqlLineage.Proofs.RelabelLemmas
+import SqlLineage.Proofs.C10Assemble
 
 namespace SqlLineage.Props.C03
 open SqlLineage Graph Assemble AStmt
@@ -692,6 +715,270 @@ theorem rename_swap_witness :
       | _ => ([], [])) = ([true], [true]) := by
   decide
 
+/-! ### RENAME puts the new name exactly in the old name's place -/
+
+/-- the statement holder of `RENAME x TO y`: two nodes, the RENAME edge, no tag -/
+private theorem renHolder (x y : String) (hxy : x ≠ y) : RenHolder (holderOf (.rename [(x, y)])) (tn x) (tn y) := by
+  have hne : tbl x ≠ tbl y := fun h => hxy (by simpa [tbl] using h)
+  refine ⟨?_, ?_, ?_⟩
+  · simp [holderOf, Holder.addRename, addEdge, addNode, hasNode, hasEdge, Graph.empty, tn, Ne.symm hne]
+  · simp [holderOf, Holder.addRename, addEdge, addNode, hasNode, hasEdge, Graph.empty, tn]
+    split <;> simp
+  · intro n tg
+    simp only [holderOf, List.foldl_cons, List.foldl_nil, Holder.addRename, tag_addEdge, tag_empty]
+
+/-- the fold step of a one‑pair RENAME, computed: compose, remove the statement's RENAME edge, apply the pair -/
+theorem foldStep_rename_single (g : LGraph) (x y : String) :
+    foldStep id g (holderOf (.rename [(x, y)])) =
+      .ok (renameOne (renState g (holderOf (.rename [(x, y)])) (tn x) (tn y)) (tn x, tn y)) := by
+  obtain ⟨_, _, hd, hr⟩ := rename_holder x y
+  simp only [foldStep, hd, hr, List.isEmpty_nil, Bool.not_true, List.isEmpty_cons, Bool.not_false, if_true, id,
+    renamesInOrder, sortPairs, insertPair, List.map_cons, List.map_nil, List.foldl_cons, List.foldl_nil,
+    renameStep, Bool.false_eq_true, if_false, renState]
+
+/-- **`RENAME x TO y` puts `y` exactly in `x`'s place** — graph level, for EVERY well‑formed state `g` of the fold (every edge
+    joins two nodes; `Inv` provides it) in which `y` does not occur yet.  With `ρ = rmap (tn x) (tn y)` (the renaming):
+
+    (a) nodes: `x` is gone, every other node stays, and `y` is there iff `x` had an edge (a renamed table nothing was ever read
+        from or wired to vanishes — the code removes the new name when its degree is 0);
+    (b) edges: exactly the `ρ`‑images of the old edges, each with its old type (and `index`);
+    (c) tags: every node other than `x`, `y` keeps all its tags; `y` carries NO tag — whatever `x` carried is lost (the
+        freshly composed, attribute‑less node `y` overwrites `x`'s attribute dict in `relabel_nodes`).  So `y` has exactly
+        what `x` had iff `x` carried no tag: the property's hypothesis "x's lineage comes from statements that both read and
+        write other tables" (no SOURCE_ONLY / TARGET_ONLY) — see `rename_in_place_tags`, `rename_loses_tags_witness`.
+
+    A self loop on `x` need NOT be excluded: it becomes a self loop on `y` by (b); the SELFLOOP tag is only set after the fold.
+    The result is well‑formed again. -/
+theorem rename_in_place (g g' : LGraph) (x y : String) (hxy : x ≠ y) (hwf : WF g) (hy : tn y ∉ g.nodes)
+    (h : foldStep id g (holderOf (.rename [(x, y)])) = .ok g') :
+    (∀ n, n ∈ g'.nodes ↔ (n ≠ tn x ∧ n ∈ g.nodes) ∨ (n = tn y ∧ g.degree (tn x) ≠ 0)) ∧
+    (∀ e, e ∈ g'.edges ↔ ∃ u v, (u, v) ∈ g.edges ∧ e = (rmap (tn x) (tn y) u, rmap (tn x) (tn y) v)) ∧
+    (∀ u v, (u, v) ∈ g.edges → g'.ety (rmap (tn x) (tn y) u) (rmap (tn x) (tn y) v) = g.ety u v ∧
+                               g'.idx (rmap (tn x) (tn y) u) (rmap (tn x) (tn y) v) = g.idx u v) ∧
+    (∀ n tg, n ≠ tn x → n ≠ tn y → g'.tag n tg = g.tag n tg) ∧
+    (∀ tg, g'.tag (tn y) tg = none) ∧
+    WF g' := by
+  have hh := renHolder x y hxy
+  rw [foldStep_rename_single] at h
+  cases h
+  exact ⟨mem_renameOne_nodes hh hwf hy, mem_renameOne_edges hh hwf hy,
+    fun u v huv => ⟨renameOne_ety hh hwf hy u v huv, renameOne_idx hh hwf hy u v huv⟩,
+    fun n tg h1 h2 => renameOne_tag_of_ne hh hwf hy n tg h1 h2, renameOne_tag_new hh hwf hy, renameOne_wf hh hwf hy⟩
+
+/-- (c) under the property's hypothesis — `x` carries no tag — `y` has exactly `x`'s (empty) attribute dict -/
+theorem rename_in_place_tags (g g' : LGraph) (x y : String) (hxy : x ≠ y) (hwf : WF g) (hy : tn y ∉ g.nodes)
+    (hx : ∀ tg, g.tag (tn x) tg = none)
+    (h : foldStep id g (holderOf (.rename [(x, y)])) = .ok g') (tg : Tag) : g'.tag (tn y) tg = g.tag (tn x) tg := by
+  rw [hx, (rename_in_place g g' x y hxy hwf hy h).2.2.2.2.1]
+
+/-- (a), the two cases spelled out: a table with an edge is replaced by the new name; an isolated one (or one that is not
+    there at all) just disappears and the new name does not appear -/
+theorem rename_in_place_nodes_cases (g g' : LGraph) (x y : String) (hxy : x ≠ y) (hwf : WF g) (hy : tn y ∉ g.nodes)
+    (h : foldStep id g (holderOf (.rename [(x, y)])) = .ok g') :
+    (g.degree (tn x) ≠ 0 → ∀ n, n ∈ g'.nodes ↔ (n ≠ tn x ∧ n ∈ g.nodes) ∨ n = tn y) ∧
+    (g.degree (tn x) = 0 → ∀ n, n ∈ g'.nodes ↔ (n ≠ tn x ∧ n ∈ g.nodes)) := by
+  have ha := (rename_in_place g g' x y hxy hwf hy h).1
+  constructor
+  · intro hd n; rw [ha]; simp [hd]
+  · intro hd n; rw [ha]; simp [hd]
+
+/-- **roles move with the renaming** (graph level): if moreover `x` carries none of the three role tags, then after the
+    statement — with the self‑loop tagging of the tail applied on both sides — `y` has exactly the roles `x` had, `x` has
+    none, and every other node keeps its roles. -/
+theorem rename_in_place_roles_graph (g g' : LGraph) (x y : String) (hxy : x ≠ y) (hwf : WF g) (hy : tn y ∉ g.nodes)
+    (hs : g.tag (tn x) .sourceOnly ≠ some true) (ht : g.tag (tn x) .targetOnly ≠ some true)
+    (hl : g.tag (tn x) .selfloop ≠ some true)
+    (h : foldStep id g (holderOf (.rename [(x, y)])) = .ok g') (n : Node) :
+    (n ∈ sourceTables (tagSelfloops g') ↔
+      (n ≠ tn x ∧ n ≠ tn y ∧ n ∈ sourceTables (tagSelfloops g)) ∨ (n = tn y ∧ tn x ∈ sourceTables (tagSelfloops g))) ∧
+    (n ∈ targetTables (tagSelfloops g') ↔
+      (n ≠ tn x ∧ n ≠ tn y ∧ n ∈ targetTables (tagSelfloops g)) ∨ (n = tn y ∧ tn x ∈ targetTables (tagSelfloops g))) ∧
+    (n ∈ intermediateTables (tagSelfloops g') ↔
+      (n ≠ tn x ∧ n ≠ tn y ∧ n ∈ intermediateTables (tagSelfloops g)) ∨
+      (n = tn y ∧ tn x ∈ intermediateTables (tagSelfloops g))) := by
+  have hh := renHolder x y hxy
+  have hne : tn x ≠ tn y := fun e => hxy (tn_inj e)
+  rw [foldStep_rename_single] at h
+  cases h
+  obtain ⟨m1, m2, m3⟩ := moved_roles hh hwf hy hne (tn_isDataset x) (tn_isDataset y) hs ht hl
+  exact ⟨m1 n, m2 n, m3 n⟩
+
+/-! RENAME after a DROP/RENAME‑free history -/
+
+private theorem foldAll_append (ord : List (Node × Node) → List (Node × Node)) (l1 l2 : List LGraph) (g : LGraph) :
+    foldAll ord g (l1 ++ l2) =
+      match foldAll ord g l1 with | .ok g' => foldAll ord g' l2 | .error e => .error e := by
+  induction l1 generalizing g with
+  | nil => rfl
+  | cons a r ih =>
+    simp only [List.cons_append, foldAll]
+    cases foldStep ord g a with
+    | ok g1 => exact ih g1
+    | error e => rfl
+
+private theorem inv_wf (ss : List AStmt) (g : LGraph) (hI : Inv ss g) : WF g := by
+  intro e he
+  rcases (hI.edges e).mp he with ⟨r, w, rfl, hf⟩ | ⟨r, rfl, hr⟩
+  · exact feeds_node ss g hI hf
+  · exact ⟨(hI.nodes _).mpr (Or.inl ⟨r, rfl, Or.inl hr⟩), (hI.nodes _).mpr (Or.inr ⟨r, rfl, hr⟩)⟩
+
+/-- **(d) the roles after `RENAME x TO y` at the end of a read/write history.**  `ss` contains no DROP/RENAME, `x` is never
+    read by a statement that writes nothing and never written by a statement that reads nothing (the property's hypothesis;
+    a statement that both reads and writes `x` is allowed), `y` does not occur.  Then the history with the RENAME appended
+    assembles, and a node is a source / target / intermediate table of the result iff it is neither `x` nor `y` and had that
+    role before, or it is `y` and `x` had that role before. -/
+theorem rename_in_place_roles (ss : List AStmt) (x y : String) (hrw : RWOnly ss) (hxy : x ≠ y)
+    (hsx : ¬ srcOnly ss x) (htx : ¬ tgtOnly ss x) (hyr : ¬ readSomewhere ss y) (hyw : ¬ writtenSomewhere ss y) :
+    ∃ G G', AStmt.build ss = .ok G ∧ AStmt.build (ss ++ [.rename [(x, y)]]) = .ok G' ∧
+      ∀ n,
+        (n ∈ sourceTables G' ↔ (n ≠ tn x ∧ n ≠ tn y ∧ n ∈ sourceTables G) ∨ (n = tn y ∧ tn x ∈ sourceTables G)) ∧
+        (n ∈ targetTables G' ↔ (n ≠ tn x ∧ n ≠ tn y ∧ n ∈ targetTables G) ∨ (n = tn y ∧ tn x ∈ targetTables G)) ∧
+        (n ∈ intermediateTables G' ↔
+          (n ≠ tn x ∧ n ≠ tn y ∧ n ∈ intermediateTables G) ∨ (n = tn y ∧ tn x ∈ intermediateTables G)) := by
+  obtain ⟨g, hg, hI0⟩ := foldAll_inv id ss [] Graph.empty hrw inv_empty
+  have hI : Inv ss g := by simpa using hI0
+  obtain ⟨g', hstep⟩ := rename_single_pair_total g x y
+  have hwf := inv_wf ss g hI
+  have hy : tn y ∉ g.nodes := by
+    intro hn
+    rcases (hI.nodes _).mp hn with ⟨t, e, h1 | h1⟩ | ⟨t, e, _⟩
+    · exact hyr (tn_inj e ▸ h1)
+    · exact hyw (tn_inj e ▸ h1)
+    · exact absurd e (tn_ne_str y t)
+  have hs : g.tag (tn x) .sourceOnly ≠ some true := by
+    intro e
+    obtain ⟨t, e1, h1⟩ := (hI.src _).mp e
+    exact hsx (tn_inj e1 ▸ h1)
+  have ht : g.tag (tn x) .targetOnly ≠ some true := by
+    intro e
+    obtain ⟨t, e1, h1⟩ := (hI.tgt _).mp e
+    exact htx (tn_inj e1 ▸ h1)
+  have hl : g.tag (tn x) .selfloop ≠ some true := by rw [hI.loop]; exact fun e => by cases e
+  have hb : AStmt.build ss = .ok (tagSelfloops g) := by
+    simp only [AStmt.build, Assemble.build, buildWith, hg]
+    exact tail_eq g (no_cols _ g hI)
+  have hc' : ∀ n ∈ g'.nodes, n.isCol = false := by
+    intro n hn
+    rcases ((rename_in_place g g' x y hxy hwf hy hstep).1 n).mp hn with ⟨_, h1⟩ | ⟨rfl, _⟩
+    · exact no_cols _ g hI n h1
+    · exact tn_isCol y
+  have hb' : AStmt.build (ss ++ [.rename [(x, y)]]) = .ok (tagSelfloops g') := by
+    simp only [AStmt.build, Assemble.build, buildWith, List.map_append, List.map_cons, List.map_nil, foldAll_append, hg,
+      foldAll, hstep]
+    exact tail_eq g' hc'
+  exact ⟨_, _, hb, hb', rename_in_place_roles_graph g g' x y hxy hwf hy hs ht hl hstep⟩
+
+/-- (d) in the property's vocabulary: for every table `t`, and with `y`'s roles read off `x`'s part of the history -/
+theorem rename_in_place_roles_tables (ss : List AStmt) (x y : String) (hrw : RWOnly ss) (hxy : x ≠ y)
+    (hsx : ¬ srcOnly ss x) (htx : ¬ tgtOnly ss x) (hyr : ¬ readSomewhere ss y) (hyw : ¬ writtenSomewhere ss y) :
+    ∃ G G', AStmt.build ss = .ok G ∧ AStmt.build (ss ++ [.rename [(x, y)]]) = .ok G' ∧
+      (∀ t, (tn t ∈ sourceTables G' ↔ (t ≠ x ∧ t ≠ y ∧ tn t ∈ sourceTables G) ∨ (t = y ∧ tn x ∈ sourceTables G)) ∧
+            (tn t ∈ targetTables G' ↔ (t ≠ x ∧ t ≠ y ∧ tn t ∈ targetTables G) ∨ (t = y ∧ tn x ∈ targetTables G)) ∧
+            (tn t ∈ intermediateTables G' ↔
+              (t ≠ x ∧ t ≠ y ∧ tn t ∈ intermediateTables G) ∨ (t = y ∧ tn x ∈ intermediateTables G))) ∧
+      (tn y ∈ sourceTables G' ↔ ((∃ w, feeds ss x w) ∧ ¬∃ r, feeds ss r x) ∨ self ss x) ∧
+      (tn y ∈ targetTables G' ↔ ((∃ r, feeds ss r x) ∧ ¬∃ w, feeds ss x w) ∨ self ss x) ∧
+      (tn y ∈ intermediateTables G' ↔ (∃ r, feeds ss r x) ∧ (∃ w, feeds ss x w) ∧ ¬ self ss x) ∧
+      tn x ∉ sourceTables G' ∧ tn x ∉ targetTables G' ∧ tn x ∉ intermediateTables G' := by
+  obtain ⟨G, G', hb, hb', hr⟩ := rename_in_place_roles ss x y hrw hxy hsx htx hyr hyw
+  have hne : tn x ≠ tn y := fun e => hxy (tn_inj e)
+  have ht : ∀ a b : String, tn a ≠ tn b ↔ a ≠ b := fun a b => ⟨fun h e => h (e ▸ rfl), fun h e => h (tn_inj e)⟩
+  have he : ∀ a b : String, tn a = tn b ↔ a = b := fun a b => ⟨tn_inj, fun e => e ▸ rfl⟩
+  obtain ⟨r1, r2, r3⟩ := roles_iff ss hrw G hb x
+  refine ⟨G, G', hb, hb', ?_, ?_, ?_, ?_, ?_, ?_, ?_⟩
+  · intro t
+    obtain ⟨h1, h2, h3⟩ := hr (tn t)
+    simp only [ht, he] at h1 h2 h3
+    exact ⟨h1, h2, h3⟩
+  · have : tn y ∈ sourceTables G' ↔ tn x ∈ sourceTables G := by rw [(hr (tn y)).1]; simp
+    rw [this, r1]; simp only [hsx, or_false]
+  · have : tn y ∈ targetTables G' ↔ tn x ∈ targetTables G := by rw [(hr (tn y)).2.1]; simp
+    rw [this, r2]; simp only [htx, or_false]
+  · have : tn y ∈ intermediateTables G' ↔ tn x ∈ intermediateTables G := by rw [(hr (tn y)).2.2]; simp
+    rw [this, r3]
+  · rw [(hr (tn x)).1]; simp [hne]
+  · rw [(hr (tn x)).2.1]; simp [hne]
+  · rw [(hr (tn x)).2.2]; simp [hne]
+
+/-! RENAME at any point of any history (DROP and RENAME statements before it included) -/
+
+/-- **`rename_in_place` applies at every point of every script**: `ss` is an ARBITRARY history of abstract statements, `g` the
+    state of the fold after it (always well‑formed: `fold_wf`).  If `y` does not occur in `g`, then `RENAME x TO y` puts `y`
+    exactly in `x`'s place in the state the rest of the script continues from. -/
+theorem rename_in_place_any_history (ss : List AStmt) (g : LGraph) (x y : String) (hxy : x ≠ y)
+    (hg : foldAll id Graph.empty (ss.map holderOf) = .ok g) (hy : tn y ∉ g.nodes) :
+    ∃ g', foldAll id Graph.empty ((ss ++ [AStmt.rename [(x, y)]]).map holderOf) = .ok g' ∧
+      (∀ n, n ∈ g'.nodes ↔ (n ≠ tn x ∧ n ∈ g.nodes) ∨ (n = tn y ∧ g.degree (tn x) ≠ 0)) ∧
+      (∀ e, e ∈ g'.edges ↔ ∃ u v, (u, v) ∈ g.edges ∧ e = (rmap (tn x) (tn y) u, rmap (tn x) (tn y) v)) ∧
+      (∀ u v, (u, v) ∈ g.edges → g'.ety (rmap (tn x) (tn y) u) (rmap (tn x) (tn y) v) = g.ety u v ∧
+                                 g'.idx (rmap (tn x) (tn y) u) (rmap (tn x) (tn y) v) = g.idx u v) ∧
+      (∀ n tg, n ≠ tn x → n ≠ tn y → g'.tag n tg = g.tag n tg) ∧
+      (∀ tg, g'.tag (tn y) tg = none) ∧
+      WF g' := by
+  obtain ⟨g', hstep⟩ := rename_single_pair_total g x y
+  refine ⟨g', ?_, rename_in_place g g' x y hxy (fold_wf id ss g hg) hy hstep⟩
+  simp only [List.map_append, List.map_cons, List.map_nil, foldAll_append, hg, foldAll, hstep]
+
+/-- **roles, at any point of any history**: if moreover `x` carries neither SOURCE_ONLY nor TARGET_ONLY in the state `g`
+    (for an RW‑only history that is `¬ srcOnly ss x ∧ ¬ tgtOnly ss x`: `rename_in_place_roles`), the summary of the script cut
+    after the RENAME is the summary of the script cut before it with `y` in `x`'s place. -/
+theorem rename_in_place_roles_any_history (ss : List AStmt) (g : LGraph) (x y : String) (hxy : x ≠ y)
+    (hg : foldAll id Graph.empty (ss.map holderOf) = .ok g) (hy : tn y ∉ g.nodes)
+    (hs : g.tag (tn x) .sourceOnly ≠ some true) (ht : g.tag (tn x) .targetOnly ≠ some true) :
+    ∃ G G', AStmt.build ss = .ok G ∧ AStmt.build (ss ++ [.rename [(x, y)]]) = .ok G' ∧
+      ∀ n,
+        (n ∈ sourceTables G' ↔ (n ≠ tn x ∧ n ≠ tn y ∧ n ∈ sourceTables G) ∨ (n = tn y ∧ tn x ∈ sourceTables G)) ∧
+        (n ∈ targetTables G' ↔ (n ≠ tn x ∧ n ≠ tn y ∧ n ∈ targetTables G) ∨ (n = tn y ∧ tn x ∈ targetTables G)) ∧
+        (n ∈ intermediateTables G' ↔
+          (n ≠ tn x ∧ n ≠ tn y ∧ n ∈ intermediateTables G) ∨ (n = tn y ∧ tn x ∈ intermediateTables G)) := by
+  obtain ⟨g', hg', ha, _⟩ := rename_in_place_any_history ss g x y hxy hg hy
+  have hstep : foldStep id g (holderOf (.rename [(x, y)])) = .ok g' := by
+    simp only [List.map_append, List.map_cons, List.map_nil, foldAll_append, hg, foldAll] at hg'
+    cases hst : foldStep id g (holderOf (.rename [(x, y)])) with
+    | ok g1 => rw [hst] at hg'; exact hg'
+    | error e => rw [hst] at hg'; cases hg'
+  have hwf := fold_wf id ss g hg
+  have hl : g.tag (tn x) .selfloop ≠ some true := by
+    rw [fold_no_selfloop_tag id ss g hg]; exact fun e => by cases e
+  have hc : ∀ n ∈ g.nodes, n.isCol = false :=
+    (Proofs.C10Assemble.noCols_foldAll _ Proofs.C10Assemble.noCols_empty (fun h hh => by
+      obtain ⟨s, _, rfl⟩ := List.mem_map.mp hh
+      exact Proofs.C10Assemble.noCols_holderOf s) hg).nodes
+  have hc' : ∀ n ∈ g'.nodes, n.isCol = false := by
+    intro n hn
+    rcases (ha n).mp hn with ⟨_, h1⟩ | ⟨rfl, _⟩
+    · exact hc n h1
+    · exact tn_isCol y
+  have hb : AStmt.build ss = .ok (tagSelfloops g) := by
+    simp only [AStmt.build, Assemble.build, buildWith, hg]
+    exact tail_eq g hc
+  have hb' : AStmt.build (ss ++ [.rename [(x, y)]]) = .ok (tagSelfloops g') := by
+    simp only [AStmt.build, Assemble.build, buildWith, hg']
+    exact tail_eq g' hc'
+  exact ⟨_, _, hb, hb', rename_in_place_roles_graph g g' x y hxy hwf hy hs ht hl hstep⟩
+
+/-- a table one statement both reads and writes keeps that status under its new name: source and target, not intermediate -/
+theorem rename_selfloop_witness :
+    (match AStmt.build [.rw ["x"] (some "x"), .rename [("x", "y")]] with
+      | .ok g => (sourceTables g == [tn "y"], targetTables g == [tn "y"], intermediateTables g == [])
+      | _ => (false, false, false)) = (true, true, true) := by decide
+
+/-- the `degree = 0` case of `rename_in_place` (a) happens: a table that was only ever written by a statement reading
+    nothing has no edge, and renaming it makes it vanish altogether -/
+theorem rename_isolated_vanishes_witness :
+    (match AStmt.build [.rw [] (some "x")] with | .ok g => g.nodes == [tn "x"] | _ => false) = true ∧
+    (match AStmt.build [.rw [] (some "x"), .rename [("x", "y")]] with | .ok g => g.nodes == [] | _ => false) = true := by
+  decide
+
+/-- the hypothesis "`y` does not occur yet" is not idle either: renaming ONTO an existing table merges the two — `x` was a
+    source, but `y` ends up intermediate (it keeps its own incoming edge) -/
+theorem rename_onto_existing_witness :
+    (match AStmt.build [.rw ["x"] (some "a"), .rw ["b"] (some "y")],
+           AStmt.build [.rw ["x"] (some "a"), .rw ["b"] (some "y"), .rename [("x", "y")]] with
+      | .ok G, .ok G' => ((sourceTables G).contains (tn "x"), (sourceTables G').contains (tn "y"),
+                          intermediateTables G' == [tn "y"])
+      | _, _ => (false, true, false)) = (true, false, true) := by decide
+
 /-! ### non‑vacuity -/
 
 example : RWOnly [.rw ["a", "b"] (some "c"), .rw ["c"] (some "d"), .rw ["d"] (some "d"), .rw ["x"] none] := by
@@ -700,5 +987,41 @@ example : RWOnly [.rw ["a", "b"] (some "c"), .rw ["c"] (some "d"), .rw ["d"] (so
 example : (match AStmt.build [.rw ["a", "b"] (some "c"), .rw ["c"] (some "d"), .rw ["d"] (some "d"), .rw ["x"] none] with
     | .ok g => ((sourceTables g).length, (targetTables g).length, (intermediateTables g).length)
     | _ => (0, 0, 0)) = (4, 1, 1) := by decide
+
+/-- `rename_in_place_roles` on a concrete history: `a → x → b`, then `RENAME x TO y`: `y` is the intermediate table, `x` is gone -/
+example :
+    (match AStmt.build [.rw ["a"] (some "x"), .rw ["x"] (some "b"), .rename [("x", "y")]] with
+      | .ok g => (sourceTables g == [tn "a"], targetTables g == [tn "b"], intermediateTables g == [tn "y"],
+                  g.hasNode (tn "x"), g.hasEdge (tn "a") (tn "y"), g.hasEdge (tn "y") (tn "b"))
+      | _ => (false, false, false, true, false, false)) = (true, true, true, false, true, true) := by decide
+
+/-- the hypotheses of `rename_in_place_roles` are satisfiable by that history, and `x` does have a role to hand over -/
+example :
+    let ss : List AStmt := [.rw ["a"] (some "x"), .rw ["x"] (some "b")]
+    RWOnly ss ∧ ¬ srcOnly ss "x" ∧ ¬ tgtOnly ss "x" ∧ ¬ readSomewhere ss "y" ∧ ¬ writtenSomewhere ss "y" ∧
+    (∃ r, feeds ss r "x") ∧ (∃ w, feeds ss "x" w) ∧ ¬ self ss "x" := by
+  refine ⟨?_, ?_, ?_, ?_, ?_, ⟨"a", ["a"], by simp, by simp⟩, ⟨"b", ["x"], by simp, by simp⟩, ?_⟩
+  · intro s hs; simp at hs; rcases hs with rfl | rfl <;> exact ⟨_, _, rfl⟩
+  · simp [srcOnly]
+  · simp [tgtOnly]
+  · rintro ⟨R, w, hm, hy⟩
+    simp at hm
+    rcases hm with ⟨rfl, _⟩ | ⟨rfl, _⟩ <;> simp at hy
+  · simp [writtenSomewhere]
+  · simp [self, feeds]
+
+/-- the hypotheses of `rename_in_place_roles_any_history` are satisfiable after a history WITH a DROP and a RENAME, and the
+    conclusion is not vacuous there: `a → x`, `DROP c`, `RENAME a TO a2`, `x → b`, then `RENAME x TO y` -/
+example :
+    let ss : List AStmt := [.rw ["a"] (some "x"), .drop "c", .rename [("a", "a2")], .rw ["x"] (some "b")]
+    (match foldAll id Graph.empty (ss.map holderOf) with
+      | .ok g => !g.hasNode (tn "y") && g.hasNode (tn "x") && g.tag (tn "x") .sourceOnly != some true &&
+                 g.tag (tn "x") .targetOnly != some true
+      | _ => false) = true ∧
+    (match AStmt.build ss, AStmt.build (ss ++ [.rename [("x", "y")]]) with
+      | .ok G, .ok G' => (sourceTables G == [tn "a2"], targetTables G == [tn "b"], intermediateTables G == [tn "x"],
+                          sourceTables G' == [tn "a2"], targetTables G' == [tn "b"], intermediateTables G' == [tn "y"])
+      | _, _ => (false, false, false, false, false, false)) = (true, true, true, true, true, true) := by
+  decide
 
 end SqlLineage.Props.C03
